@@ -48,7 +48,10 @@ def gen_plan(rng, tier, i, seed):
     return {"world": world, "samples": {"s0": smp}, "build": rng.choice(["hg19", "hg19", "hg38"]),
             "k": rng.choice([2, 3, 4, 5]), "route": rng.choice(["bam", "yml"]),
             "write_hashseed": rng.choice([0, 1, 2]), "read_hashseed": rng.choice([0, 1, 2, 3, 4]),
-            "shuffle": rng.choice([None, rng.randint(0, 10**6)]), "hide_index": rng.random() < 0.3}
+            "shuffle": rng.choice([None, rng.randint(0, 10**6)]), "hide_index": rng.random() < 0.3,
+            # a model parameter that has no business in the normalisation: the copy-number ceiling of the
+            # structure model (the multiplied gene reads go well beyond it)
+            "cn_max": rng.choice([None, None, 3, 5, 8])}
 
 
 def execute(plan, runner, rundir):
@@ -67,7 +70,7 @@ def _v(clause, **detail):
 def judge(plan, outcome):
     vs = []
     m = outcome["measure"]
-    env = {"route": plan["route"], "k": plan["k"], "build": plan["build"]}
+    env = {"route": plan["route"], "k": plan["k"], "build": plan["build"], "cn_max": plan.get("cn_max")}
     # (1) the profile sample fed back to itself reads 2.0 wherever the profile has depth
     for route in ("bam", "yml", "own", "second_region", "short_region", "reused_profile"):
         r = m["self"][route]
@@ -218,7 +221,7 @@ def evidence(acc):
 # child side
 
 
-def _measure(gene, prof_path, cnr, sam_path, stream=None, structure=False):
+def _measure(gene, prof_path, cnr, sam_path, stream=None, structure=False, params=None):
     from aldy.common import AldyException, parse_cn_region
     from aldy.cn import estimate_cn
     from aldy.profile import Profile
@@ -232,7 +235,7 @@ def _measure(gene, prof_path, cnr, sam_path, stream=None, structure=False):
     streams.reset()
     out = {}
     try:
-        p = Profile.load(gene, prof_path, parse_cn_region(cnr) if cnr else None)
+        p = Profile.load(gene, prof_path, parse_cn_region(cnr) if cnr else None, **(params or {}))
         s = Sample(gene, p, sam_path)
         out["rc"] = [[[gi, r], s.coverage.region_coverage(gi, r)] for gi, gr in enumerate(gene.regions) for r in gr]
         out["pcov"] = {f"{gi}:{r}": p.data[gene.name][r][gi] for gi, gr in enumerate(gene.regions) for r in gr}
@@ -319,7 +322,8 @@ def run_segment(seg):
     neutral = [r for r in reads if r[3].startswith("n")]
     gk = os.path.join(rd, "genek.bam")
     W.write_bam(gk, world, [(a, b, c, f"{d}_{j}") for j in range(k) for a, b, c, d in locus] + neutral, build=build)
-    res["dup_gene"] = _measure(gene, prof, cnr, gk)
+    res["dup_gene"] = _measure(gene, prof, cnr, gk,
+                               params={"cn_max": plan["cn_max"]} if plan.get("cn_max") else None)
     res["path"] = _measure(gene, prof, cnr, s0,
                            stream={"shuffle": plan["shuffle"] if plan["shuffle"] is not None else 7,
                                    "hide_index": plan["hide_index"], "only_file": "s0.bam"})
